@@ -257,7 +257,62 @@ func (e *Exec) stringFromSegs(st *State, segs []StrSeg) *StringVal {
 	if res == nil {
 		return e.strConst("")
 	}
+	e.recordConcatShape(st, res, segs)
 	return res
+}
+
+// recordConcatShape: when every segment has a known shape, the concatenation has one too.
+func (e *Exec) recordConcatShape(st *State, res *StringVal, segs []StrSeg) {
+	if !res.Len.IsConst() {
+		return
+	}
+	var sh rxShape
+	for _, sg := range segs {
+		switch sg.Kind {
+		case "lit":
+			sh = append(sh, litShape(sg.Lit)...)
+		case "str":
+			ps, ok := e.knownShape(st, sg.S)
+			if !ok {
+				return
+			}
+			sh = append(sh, ps...)
+		case "hex", "HEX":
+			if sg.W == 0 {
+				return
+			}
+			for i := 0; i < sg.W; i++ {
+				var it rxItem
+				it.lit = -1
+				for b := '0'; b <= '9'; b++ {
+					it.set[b] = true
+				}
+				lo, hi := 'a', 'f'
+				if sg.Kind == "HEX" {
+					lo, hi = 'A', 'F'
+				}
+				for b := lo; b <= hi; b++ {
+					it.set[b] = true
+				}
+				sh = append(sh, it)
+			}
+		default:
+			return
+		}
+	}
+	if int64(len(sh)) != res.Len.C.Int64() {
+		return
+	}
+	st.StrFacts = append(st.StrFacts[:len(st.StrFacts):len(st.StrFacts)], &StrFact{C: res.C, Off: res.Off, Shape: sh})
+}
+
+func litShape(s string) rxShape {
+	sh := make(rxShape, len(s))
+	for i := 0; i < len(s); i++ {
+		sh[i].lit = int(s[i])
+		sh[i].set[s[i]] = true
+	}
+	return sh
 }
 
 // numString: rendering of an integer. Fixed-width hex (width == number of nibbles) is fully defined;
@@ -265,8 +320,16 @@ func (e *Exec) stringFromSegs(st *State, segs []StrSeg) *StringVal {
 func (e *Exec) numString(st *State, sg StrSeg) *StringVal {
 	c := e.C
 	t := sg.T
-	if (sg.Kind == "hex" || sg.Kind == "HEX") && !e.IntMode && sg.W > 0 && sg.W*4 >= t.S.W {
-		// zero padded to at least W digits and W covers the type: exactly W digits
+	exact := (sg.Kind == "hex" || sg.Kind == "HEX") && !e.IntMode && sg.W > 0 && sg.W*4 >= t.S.W
+	if !exact && (sg.Kind == "hex" || sg.Kind == "HEX") && !e.IntMode && sg.W > 0 && st.Record == nil {
+		// narrower than the type: exactly W digits when the path condition bounds the value below 16^W
+		bound := c.ULt(t, c.BVConst(pow2(uint(4*sg.W)), t.S.W))
+		if bound.IsTrue() || e.quickValid(st, bound) {
+			exact = true
+		}
+	}
+	if exact {
+		// zero padded to W digits and the value needs no more: exactly W digits
 		n := sg.W
 		vals := make([]*Term, n)
 		for i := 0; i < n; i++ {
@@ -287,7 +350,23 @@ func (e *Exec) numString(st *State, sg StrSeg) *StringVal {
 			}
 			vals[i] = c.Ite(c.ULt(nib, c.BVu(10, 8)), c.Add(nib, c.BVu('0', 8)), c.Add(nib, c.BVu(alpha, 8)))
 		}
-		return &StringVal{C: &ArrLit{Vals: vals, Rest: &ArrFill{Val: c.BVu(0, 8)}}, Off: e.idx(0), Len: e.idx(int64(n))}
+		r := &StringVal{C: &ArrLit{Vals: vals, Rest: &ArrFill{Val: c.BVu(0, 8)}}, Off: e.idx(0), Len: e.idx(int64(n))}
+		sh := make(rxShape, n)
+		for i := range sh {
+			sh[i].lit = -1
+			for b := '0'; b <= '9'; b++ {
+				sh[i].set[b] = true
+			}
+			lo, hi := 'a', 'f'
+			if sg.Kind == "HEX" {
+				lo, hi = 'A', 'F'
+			}
+			for b := lo; b <= hi; b++ {
+				sh[i].set[b] = true
+			}
+		}
+		st.StrFacts = append(st.StrFacts[:len(st.StrFacts):len(st.StrFacts)], &StrFact{C: r.C, Off: r.Off, Shape: sh})
+		return r
 	}
 	// uninterpreted rendering: fn(kind, value) -> (len, bytes)
 	name := "render_" + sg.Kind
@@ -384,6 +463,43 @@ func (e *Exec) parseIntModel(st *State, s *StringVal, base int, bits int, signed
 		if okKind && e.IntMode && sg.T.S.IsInt() {
 			st.assume(okb)
 			st.assume(c.Eq(v, sg.T))
+		}
+	}
+	// constant-length input, unsigned parse: strconv's definition, byte by byte
+	if !signed && !e.IntMode && s.Len.IsConst() && s.Len.C.IsInt64() {
+		n := int(s.Len.C.Int64())
+		maxN := 16
+		if base == 10 {
+			maxN = 19
+		}
+		if (base == 16 || base == 10) && n >= 1 && n <= maxN {
+			allOK := c.True()
+			val := c.BVu(0, 64)
+			for i := 0; i < n; i++ {
+				b := e.sel(s.C, c.Add(s.Off, e.idx(int64(i))))
+				isDigit := c.And(c.ULe(c.BVu('0', 8), b), c.ULe(b, c.BVu('9', 8)))
+				var okc, dv *Term
+				if base == 16 {
+					isLo := c.And(c.ULe(c.BVu('a', 8), b), c.ULe(b, c.BVu('f', 8)))
+					isUp := c.And(c.ULe(c.BVu('A', 8), b), c.ULe(b, c.BVu('F', 8)))
+					okc = c.Or(isDigit, isLo, isUp)
+					dv = c.Ite(isDigit, c.Sub(b, c.BVu('0', 8)), c.Ite(isLo, c.Sub(b, c.BVu('a'-10, 8)), c.Sub(b, c.BVu('A'-10, 8))))
+					val = c.BvOr(c.Shl(val, c.BVu(4, 64)), c.ZExt(dv, 64))
+				} else {
+					okc = isDigit
+					dv = c.Sub(b, c.BVu('0', 8))
+					val = c.Add(c.Mul(val, c.BVu(10, 64)), c.ZExt(dv, 64))
+				}
+				allOK = c.And(allOK, okc)
+			}
+			fits := c.True()
+			if bits < 64 {
+				fits = c.ULe(val, c.BVConst(new(big.Int).Sub(pow2(uint(bits)), big.NewInt(1)), 64))
+			}
+			st.assume(c.Eq(okb, c.And(allOK, fits)))
+			st.assume(c.Implies(okb, c.Eq(v, val)))
+			e.UsedIntrinsics["strconv.ParseUint on constant-length input: defined byte by byte (base 10/16)"] = true
+			return v, &IfaceVal{Opaque: true, IsNil: okb, ID: c.Fresh("errid", BV(64))}
 		}
 	}
 	// ghost link: parse_val / parse_ok are functions of the string identity
@@ -628,6 +744,38 @@ func intrStrMapSameLen(kind string) intrinsic {
 	return func(e *Exec, st *State, fr *Frame, args []Val, in ssa.Instruction, rt types.Type) []callRes {
 		s := args[0].(*StringVal)
 		c := e.C
+		if sh, ok := e.knownShape(st, s); ok {
+			// identity when no position can hold a letter of the other case
+			changes := false
+			for i := range sh {
+				lo, hi := 'A', 'Z'
+				if kind == "toupper" {
+					lo, hi = 'a', 'z'
+				}
+				for b := lo; b <= hi; b++ {
+					if sh[i].set[b] {
+						changes = true
+					}
+				}
+				for b := 128; b < 256; b++ {
+					if sh[i].set[b] {
+						changes = true
+					}
+				}
+			}
+			if !changes {
+				return []callRes{{st, s}}
+			}
+			if r, ok := e.lowerByShape(st, s, sh, kind == "toupper"); ok {
+				return []callRes{{st, r}}
+			}
+		}
+		if cs, isC := concreteString(s); isC {
+			if kind == "toupper" {
+				return []callRes{{st, e.strConst(strings.ToUpper(cs))}}
+			}
+			return []callRes{{st, e.strConst(strings.ToLower(cs))}}
+		}
 		nm := c.FreshName(kind)
 		l := c.Var(nm+".len", e.idxSort())
 		st.assume(e.lenFact(l))
@@ -722,6 +870,27 @@ func intrTrimSpace(e *Exec, st *State, fr *Frame, args []Val, in ssa.Instruction
 // uninterpreted functions of the string identity (so that contracts can refer to the same window).
 func (e *Exec) trimSpace(st *State, s *StringVal) *StringVal {
 	c := e.C
+	if cs, isC := concreteString(s); isC {
+		return e.strConst(strings.TrimSpace(cs))
+	}
+	if sh, ok := e.knownShape(st, s); ok && len(sh) > 0 {
+		isSp := func(it rxItem) bool {
+			for _, b := range []byte{' ', '\t', '\n', '\v', '\f', '\r', 0x85, 0xA0} {
+				if it.set[b] {
+					return true
+				}
+			}
+			for b := 128; b < 256; b++ {
+				if it.set[b] {
+					return true
+				}
+			}
+			return false
+		}
+		if !isSp(sh[0]) && !isSp(sh[len(sh)-1]) {
+			return s
+		}
+	}
 	var a, b *Term
 	if id := e.strIdent(s); id != nil {
 		a = c.App("trimspace_lo", e.idxSort(), id...)
@@ -907,8 +1076,15 @@ func (e *Exec) splitTagged(st *State, s, sep *StringVal) ([]Val, bool) {
 		return nil, false
 	}
 	b := lit[0]
-	if (b >= '0' && b <= '9') || (b >= 'a' && b <= 'f') || (b >= 'A' && b <= 'F') || b == '-' || b == '+' {
+	if (b >= '0' && b <= '9') || (b >= 'a' && b <= 'f') || (b >= 'A' && b <= 'F') || b == '+' {
 		return nil, false
+	}
+	if b == '-' {
+		for _, sg := range s.Tag.Segs {
+			if sg.Kind == "dec" && sg.Signed {
+				return nil, false
+			}
+		}
 	}
 	var parts []Val
 	var cur []StrSeg
